@@ -1166,37 +1166,121 @@ pub fn solver(rec: &mut Recorder, rng: &mut Rng, thorough: bool) {
         let mut rep: Vec<u32> = reps.into_iter().map(|e| e + (kp - k)).collect();
         rng.shuffle(&mut rep);
         isis.extend(rep);
-        for be in ["dense", "sparse"] {
-            if (small || is_heavy) && (be == "dense") != ((if is_heavy { it / 2 } else { it }) % 2 == 0) { continue; }
-            let isis2 = isis.clone();
-            let sparse = be == "sparse";
-            let r = guarded(move || {
-                let rows = (rq::num_ldpc_symbols(k) + rq::num_hdpc_symbols(k)) as usize + isis2.len();
-                let d = raptorq::SymbolSlab::with_zeros(rows, 1);
-                if sparse {
-                    let (a, hd) = rq::generate_constraint_matrix::<SparseBinaryMatrix>(k, &isis2);
-                    rq::fused_inverse_mul_symbols(a, hd, d, k).1
-                } else {
-                    let (a, hd) = rq::generate_constraint_matrix::<DenseBinaryMatrix>(k, &isis2);
-                    rq::fused_inverse_mul_symbols(a, hd, d, k).1
-                }
-            });
-            match r {
-                Ok(ops) => {
-                    rec.count(if ops.is_some() { "solver_dec_solved" } else { "solver_dec_gave_up" });
-                    rec.put(&format!("pisolve {k} {} {be}", list(&isis)), &opsdigest(&ops));
-                    // translation validation of this very run, independent of the solver model: the crate's own
-                    // operation vector must be a left-inverse certificate (theorem cert_sound), and a give-up
-                    // must be confirmed singular by the verified oracle
-                    if kp <= 130 && (small || is_heavy || it % 3 == 0) {
-                        let expect = if ops.is_some() { "cert=ok oracle=determined" } else { "gaveup oracle=singular" };
-                        let os = match &ops { Some(o) => ops_str(o), None => "none".to_string() };
-                        rec.put(&format!("opscert {k} {} {os}", list(&isis)), expect);
-                        rec.count(if ops.is_some() { "opscert_solved" } else { "opscert_gave_up" });
-                    }
-                }
-                Err(_) => { rec.impl_violation(format!("solver panics on a decoder-side system K={k} ({be} back-end), received internal symbol ids {}", list(&isis))); rec.put(&format!("pisolve {k} {} {be}", list(&isis)), "err"); }
+        let only = if small || is_heavy { Some(if (if is_heavy { it / 2 } else { it }) % 2 == 0 { "dense" } else { "sparse" }) } else { None };
+        solve_and_record(rec, &opsdigest, k, kp, &isis, only, small || is_heavy || it % 3 == 0);
+    }
+    // twin rows: two repair symbols with identical rows make the system singular in a way the first phase can
+    // already notice (no row with a one left in V) - the solver's other give-up exit
+    for &k in &[10u32, 12, 18, 20, 26, 30, 32, 36] {
+        let (w, j, p1) = (rq::num_lt_symbols(k), rq::systematic_index(k), rq::calculate_p1(k));
+        let p = k + rq::num_ldpc_symbols(k) + rq::num_hdpc_symbols(k) - w;
+        let mut seen: std::collections::HashMap<Vec<usize>, u32> = std::collections::HashMap::new();
+        let mut tw: Vec<(u32, u32)> = vec![];
+        for isi in k..(k + if thorough { 600000 } else { 150000 }) {
+            let mut v = vec![];
+            rq::enc_indices(rq::intermediate_tuple(isi, w, j, p1), w, p, p1, |c| v.push(c));
+            v.sort();
+            if let Some(&o) = seen.get(&v) { tw.push((o, isi)); } else { seen.insert(v, isi); }
+        }
+        rng.shuffle(&mut tw);
+        // several twin pairs at once: more dependent rows than the first phase inactivates columns, so it
+        // runs out of rows with a one in V (its own give-up exit, as opposed to the second phase's)
+        for c in 0..(if thorough { 30 } else { 5 }) {
+            let m = 2 + (c % 3);
+            if tw.len() < m || k < 2 * m as u32 + 1 { continue; }
+            let mut isis: Vec<u32> = (0..k).collect();
+            rng.shuffle(&mut isis);
+            isis.truncate(k as usize - 2 * m);
+            isis.sort();
+            let mut reps = std::collections::BTreeSet::new();
+            let off = rng.below((tw.len() - m + 1) as u64) as usize;
+            for &(a, b) in &tw[off..off + m] { reps.insert(a); reps.insert(b); }
+            while reps.len() < 2 * m { reps.insert(pick_repair_esi(rng, k)); }
+            isis.extend(reps.into_iter());
+            rec.count("solver_dec_many_twin_rows");
+            solve_and_record(rec, &opsdigest, k, k, &isis, None, true);
+        }
+        // whole groups of identical rows (degree-1 symbols repeat often over the 24-bit id space)
+        if k <= 12 {
+            let mut groups: std::collections::HashMap<Vec<usize>, Vec<u32>> = std::collections::HashMap::new();
+            for isi in k..(1u32 << 22) {
+                let t = rq::intermediate_tuple(isi, w, j, p1);
+                if t.0 != 1 { continue; }
+                let mut v = vec![];
+                rq::enc_indices(t, w, p, p1, |c| v.push(c));
+                v.sort();
+                groups.entry(v).or_default().push(isi);
             }
+            let mut big: Vec<Vec<u32>> = groups.into_values().filter(|g| g.len() >= 4).collect();
+            big.sort();
+            for c in 0..(if thorough { 60 } else { 8 }) {
+                if big.len() < 2 { break; }
+                let nsrc = rng.range(0, 3) as usize;
+                let mut isis: Vec<u32> = (0..k).collect();
+                rng.shuffle(&mut isis);
+                isis.truncate(nsrc);
+                isis.sort();
+                let mut reps = std::collections::BTreeSet::new();
+                let ng = 2 + c % 2;
+                for _ in 0..ng { let g = rng.pick(&big).clone(); for e in g.iter().take(rng.range(3, 5) as usize) { reps.insert(*e); } }
+                while isis.len() + reps.len() < k as usize + (c % 3) { reps.insert(pick_repair_esi(rng, k)); }
+                isis.extend(reps.into_iter());
+                rec.count("solver_dec_groups_of_identical_rows");
+                solve_and_record(rec, &opsdigest, k, k, &isis, None, true);
+            }
+        }
+        for &(a, b) in tw.iter().take(if thorough { 40 } else { 6 }) {
+            let lost = rng.range(2, 5.min(k as u64)) as usize;
+            let mut idx: Vec<u32> = (0..k).collect();
+            rng.shuffle(&mut idx);
+            let mut isis: Vec<u32> = idx[lost..].to_vec();
+            isis.sort();
+            let mut reps = std::collections::BTreeSet::new();
+            reps.insert(a); reps.insert(b);
+            let extra = rng.below(2) as usize;
+            while reps.len() < lost + extra { let e = pick_repair_esi(rng, k); reps.insert(e); }
+            let mut rep: Vec<u32> = reps.into_iter().collect();
+            rng.shuffle(&mut rep);
+            isis.extend(rep);
+            rec.count("solver_dec_twin_rows");
+            solve_and_record(rec, &opsdigest, k, k, &isis, None, true);
+        }
+    }
+}
+
+// one decoder-side system on the crate's solver: operation-vector digest (tie to the solver model) and the
+// translation validation of the run (opscert)
+fn solve_and_record(rec: &mut Recorder, opsdigest: &dyn Fn(&Option<Vec<rq::SymbolOps>>) -> String, k: u32, kp: u32, isis: &[u32], only: Option<&str>, cert: bool) {
+    for be in ["dense", "sparse"] {
+        if let Some(o) = only { if o != be { continue; } }
+        let isis2 = isis.to_vec();
+        let sparse = be == "sparse";
+        let r = guarded(move || {
+            let rows = (rq::num_ldpc_symbols(k) + rq::num_hdpc_symbols(k)) as usize + isis2.len();
+            let d = raptorq::SymbolSlab::with_zeros(rows, 1);
+            if sparse {
+                let (a, hd) = rq::generate_constraint_matrix::<SparseBinaryMatrix>(k, &isis2);
+                rq::fused_inverse_mul_symbols(a, hd, d, k).1
+            } else {
+                let (a, hd) = rq::generate_constraint_matrix::<DenseBinaryMatrix>(k, &isis2);
+                rq::fused_inverse_mul_symbols(a, hd, d, k).1
+            }
+        });
+        match r {
+            Ok(ops) => {
+                rec.count(if ops.is_some() { "solver_dec_solved" } else { "solver_dec_gave_up" });
+                rec.put(&format!("pisolve {k} {} {be}", list(isis)), &opsdigest(&ops));
+                // translation validation of this very run, independent of the solver model: the crate's own
+                // operation vector must be a left-inverse certificate (theorem cert_sound), and a give-up
+                // must be confirmed singular by the verified oracle
+                if kp <= 130 && cert {
+                    let expect = if ops.is_some() { "cert=ok oracle=determined" } else { "gaveup oracle=singular" };
+                    let os = match &ops { Some(o) => ops_str(o), None => "none".to_string() };
+                    rec.put(&format!("opscert {k} {} {os}", list(isis)), expect);
+                    rec.count(if ops.is_some() { "opscert_solved" } else { "opscert_gave_up" });
+                }
+            }
+            Err(_) => { rec.impl_violation(format!("solver panics on a decoder-side system K={k} ({be} back-end), received internal symbol ids {}", list(isis))); rec.put(&format!("pisolve {k} {} {be}", list(isis)), "err"); }
         }
     }
 }
